@@ -83,6 +83,10 @@ def observedNames : List String :=
 
 def hopList : List Str := Rv.Generated.hopHeaders.map String.toList
 
+/-- the list as `http.Header.Del` sees it: `Del` canonicalises the name it is given, so the literal "TE" removes the
+    field stored under "Te" (`Rv.Props.SrcHop.model_keeps_Te` shows what goes wrong without this). -/
+def hopCanon : List Str := hopList.map Headers.canonKey
+
 def renderH (h : Headers.Hdr) : String :=
   ",".intercalate (observedNames.filterMap (fun n =>
     match Headers.values h n.toList with
@@ -147,7 +151,7 @@ def render (tunnel : Bool) (res : Nat) (method : String) (r : Resp) (log : List 
       -- answers `Connection: close` INSTEAD of a handler-set Connection header that lacks the token close:
       -- in both situations the nominations never reach the proxy
       let seen := if (Headers.connTokens withLoc).contains "Close".toList || tunnel then Headers.del withLoc Headers.connectionLit else withLoc
-      Headers.setHeaders [] (Headers.removeHopByHop hopList seen)
+      Headers.setHeaders [] (Headers.removeHopByHop hopCanon seen)
     | none => if isProxyPage then [("Content-Type".toList, "text/plain; charset=utf-8".toList)] else []
   let h := if r.label ≠ .none then Headers.add baseH "Via".toList "HTTP/1.1 reservoir".toList else baseH
   let up := " ; ".intercalate (log.map (fun u =>
